@@ -8,6 +8,7 @@ REQUIRED = ["CifModel.C17_dup_ustrings_balanced", "CifModel.C17_clone_balanced",
             "CifModel.C17_cex_packet_create_undefined", "CifModel.C17_deserialize_balanced",
             "CifModel.C17_map_set_balanced", "CifModel.C17_cex_map_set_corrupt", "CifModel.C17_map_remove_balanced",
             "CifModel.C17_clone_table_balanced", "CifModel.C17_cex_clone_table_corrupt", "CifModel.C17_map_fault_reached_iff",
+            "CifModel.C17_ladder_reentry", "CifModel.C17_deserialize_table_balanced", "CifModel.C17_get_names_norm_balanced",
             "CifModel.C17_atomic_under_fault", "CifModel.C17_abs_unchanged", "CifModel.C17_close_fault_is_abort"]
 GEN = ["ErrCodes", "Schema", "Uthash"]
 FAMILIES = ["ladder", "oom", "storefault"]
@@ -15,7 +16,9 @@ TRUSTED_BASE = [
     "Lean 4.33.0 kernel; axioms propext / Quot.sound / Classical.choice only",
     "Model/Ladder.lean: hand transcription of the allocation/clean-up control flow of dup_ustrings, cif_value_clone (scalar, "
     "char, number, nested list), cif_value_insert_element_at, cif_value_set_element_at, cif_loop_get_names, cif_value_copy_char, cif_packet_create "
-    "(ASCII names, below uthash's first bucket expansion) and cif_value_deserialize of list blobs; tied to the real code by family `ladder` (event pattern "
+    "(ASCII names, below uthash's first bucket expansion) and cif_value_deserialize of list blobs; Model/LadderMap.lean: cif_map_set_item, "
+    "cif_map_retrieve_item with removal, cif_value_clone_table with uthash's bookkeeping (HASH_JEN, thresholds: Gen/Uthash.lean, "
+    "regenerated from uthash.h; tools/translate_uthash.py fails when a transcribed macro fragment changes); tied to the real code by family `ladder` (event pattern "
     "recorded by the allocation wrappers of harness/alloc.h for every fault position of every generated shape)",
     "harness/alloc.h (--wrap of malloc/calloc/realloc/strdup/free in the executor, SQLite allocator via "
     "SQLITE_CONFIG_MALLOC, ICU allocator via u_setMemoryFunctions), harness/x_oom.c scenarios, tools/gen/oom.py oracle",
@@ -36,12 +39,36 @@ PARTIAL = [
     "store functions: C17_atomic_under_fault (every world with the invariant, every modelled operation, every fault position: error code, handle "
     "tables untouched, every CIF unchanged, the repeated call gives the fault-free result) covers the documented rollback paths; cif_create, "
     "cif_destroy, cif_pktitr_abort are not covered by stepFault",
-    "theorems cover the clean-up ladders of dup_ustrings / cif_value_clone (without tables) / cif_value_insert_element_at / "
-    "cif_value_set_element_at / cif_loop_get_names (normalize = 0) for "
-    "every size, nesting and fault position; every other allocation site is covered by the fault-enumeration run only",
-    "77 classes of genuine allocation-failure defects of the pinned library are recorded as open findings "
-    "(known_findings.d/C17.json), most of them rooted in uthash's out-of-memory handling and in statements/transactions left "
-    "open on SQLite allocation failure",
+    "ladder theorems (Props/C17.lean, Props/C17Map.lean), every size / shape / key set / fault position. The `*_balanced` theorems are "
+    "about the model variant that family `ladder` compares with the CURRENT sources (/repo 3148ec3): dup_ustrings, cif_value_clone "
+    "(scalars, text, numbers, nested lists; tables only at the top: C17_clone_table_balanced), cif_value_insert_element_at, "
+    "cif_value_set_element_at (after f1b092b), cif_value_copy_char, cif_loop_get_names without normalisation (after 0850ab1), "
+    "cif_loop_get_names_internal with normalisation (ASCII names; after c161ded), "
+    "cif_packet_create for ASCII names below uthash's first bucket expansion (after 07fe35a), cif_value_deserialize of list blobs "
+    "(numbers included, after fe019d6) and of table blobs with table-free entry values (after 7285a53 / 2b403f6), cif_map_set_item = cif_value_set_item_by_key / cif_packet_set_item and cif_value_clone_table with "
+    "uthash's table, bucket-array and expansion requests (after 7285a53), cif_map_retrieve_item with removal. Four of them "
+    "(C17_get_names_balanced, C17_packet_create_balanced, C17_map_set_balanced, C17_clone_table_balanced) are stated for the "
+    "`fixed = true` variant of a two-variant model: that variant was written as the PROPOSED repair and has been the code since the "
+    "commits named; the `fixed = false` variants describe the library before them",
+    "the `C17_cex_*` theorems characterise PINNED behaviour that has been repaired, exactly (which fault positions, which blocks): "
+    "C17_cex_get_names_leak (list node lost when a name string cannot be allocated; repaired by 0850ab1), "
+    "C17_cex_packet_create_undefined (NULL table dereference when uthash's table header for the first entry cannot be allocated; 07fe35a), "
+    "C17_cex_map_set_corrupt and C17_cex_clone_table_corrupt (entry released while uthash has it linked, cloned value and table header "
+    "lost; 7285a53). They are kept as regression statements; family `ladder` still runs the pinned variants on request "
+    "(`namespinned`, `packetpinned`, `mapsetpinned`, `tclonepinned`) but no generated request uses them",
+    "in the map ladders `corrupt` and `leaked` are labels the MODEL assigns on the pinned uthash_fatal path; what is independent of the "
+    "model is `Balanced` (Spec/HeapTrace.lean) over the event sequence; 'the caller's objects stay valid' is otherwise carried by the "
+    "correspondence runs (the executors keep using and then release every object after the faulted call, under ASan)",
+    "re-entry after a faulted ladder call: the conclusions `Balanced st.evs (…)` and 'no live id beyond the request counter' of the "
+    "from-any-state theorems (set_element_at, copy_char, map set / remove) are exactly their own hypotheses for the resulting map / "
+    "value, so a further call (with its own single fault) may follow - C17_ladder_reentry proves it for every sequence of "
+    "cif_map_set_item / removal calls on one map, each with its own fault position; the ladders that start from the empty window (dup, clone, insert, packet_create, deserialize, "
+    "get_names, clone of a table) create their result and have nothing to re-enter. There is no theorem about two faults inside ONE call",
+    "not covered by a ladder theorem (fault-enumeration run only): tables nested inside list elements or table entries (clone and "
+    "deserialise), non-ASCII names (whose normalisation may re-allocate), parse_loop_header, cif_loop_get_packets' name set, every "
+    "other allocation site",
+    "all 64 classes of allocation-failure defects found by the exhaustive census have been repaired in /repo (18 fix: commits, "
+    "notes/agents/gK.md); known_findings.d/C17.json is empty, their example requests are regression lines in corpus/oom/closed.req",
 ]
 LEVEL_TEXT = ("Partial proof + exhaustive fault enumeration. Lean theorems: for every number of strings / every value shape "
               "(any nesting, any width) and EVERY position of the single failing allocation, the modelled clean-up ladders "
@@ -49,7 +76,7 @@ LEVEL_TEXT = ("Partial proof + exhaustive fault enumeration. Lean theorems: for 
               "functions by comparing allocation/release patterns for every fault position. All other allocation sites "
               "(library, SQLite and ICU allocators) of ~65 public API operations are failed one at a time on the real code "
               "under ASan/UBSan with exact leak accounting.")
-LEVEL_NOTE = ("The theorem is about the ladder model; memory safety of the C itself is observed at run time only. "
-              "Known genuine defects are listed individually (keyed by operation / allocator class / failing allocation's "
-              "function / consequence) so that any new failure is still reported.")
+LEVEL_NOTE = ("The theorems are about the ladder and store models; memory safety of the C itself is observed at run time only. "
+              "No allocation-failure defect is open; a new failure class is a VIOLATION (nothing is masked: known_findings.d/C17.json "
+              "has no entry).")
 TECHNIQUE = "Lean 4 induction over value shapes and fault positions (clean-up ladder model), Lean 4 proof on a transactional store model with fault steps + exhaustive single-fault injection and fault-injected API histories"
